@@ -200,6 +200,10 @@ func Observe(sc *Scenario, res *simpool.Result) Observation {
 			G.InProgress = false
 			G.Done = true
 		}
+		// ... and so do those whose last operation was run by a deferred call during Goexit
+		if n := len(sc.Gs[g]); g != 0 && n > 0 && sc.Gs[g][n-1].X && !G.InProgress && G.Pc == n {
+			G.Done = true
+		}
 	}
 	// callbacks as JavaScript saw them
 	sharedCalls := 0
